@@ -245,8 +245,11 @@ impl<'a> Parser<'a> {
     /// Parse index or slice expression inside brackets
     /// Handles: [expr], [start:end], [start:end:step], [:end], [start:], [::step]
     fn index_or_slice(&mut self) -> Result<IndexOrSlice, CompileError> {
-        // Check for immediate colon (slice starting with no start value)
-        if self.check(&TokenKind::Punctuation(PunctuationId::Colon)) {
+        // Check for immediate colon (slice starting with no start value).
+        // `[::step]` reaches the parser as a single `::` token.
+        if self.check(&TokenKind::Punctuation(PunctuationId::Colon))
+            || self.check(&TokenKind::Punctuation(PunctuationId::ColonColon))
+        {
             return self.parse_slice(None);
         }
 
@@ -261,8 +264,10 @@ impl<'a> Parser<'a> {
         // Parse first expression
         let first = self.expression()?;
 
-        // Check if this is a slice (has colon after first expression)
-        if self.check(&TokenKind::Punctuation(PunctuationId::Colon)) {
+        // Check if this is a slice (has colon after first expression); `[start::step]` has `::` there
+        if self.check(&TokenKind::Punctuation(PunctuationId::Colon))
+            || self.check(&TokenKind::Punctuation(PunctuationId::ColonColon))
+        {
             return self.parse_slice(Some(first));
         }
 
@@ -273,11 +278,16 @@ impl<'a> Parser<'a> {
     /// Parse slice syntax after optional start expression
     /// start is already parsed, now parse [:end[:step]]
     fn parse_slice(&mut self, start: Option<Spanned<Expr>>) -> Result<IndexOrSlice, CompileError> {
-        // Consume the first colon
-        self.expect(&TokenKind::Punctuation(PunctuationId::Colon), "Expected ':' in slice")?;
+        // The lexer emits `::` as one token: `[::step]` / `[start::step]` means "no end" followed by the step colon.
+        let double_colon = self.match_token(&TokenKind::Punctuation(PunctuationId::ColonColon));
+        if !double_colon {
+            // Consume the first colon
+            self.expect(&TokenKind::Punctuation(PunctuationId::Colon), "Expected ':' in slice")?;
+        }
 
         // Parse end (optional - check for ] or :)
-        let end = if !self.check(&TokenKind::Punctuation(PunctuationId::RBracket))
+        let end = if !double_colon
+            && !self.check(&TokenKind::Punctuation(PunctuationId::RBracket))
             && !self.check(&TokenKind::Punctuation(PunctuationId::Colon))
         {
             Some(Box::new(self.expression()?))
@@ -286,7 +296,7 @@ impl<'a> Parser<'a> {
         };
 
         // Parse step (optional - only if there's another colon)
-        let step = if self.match_token(&TokenKind::Punctuation(PunctuationId::Colon)) {
+        let step = if double_colon || self.match_token(&TokenKind::Punctuation(PunctuationId::Colon)) {
             if !self.check(&TokenKind::Punctuation(PunctuationId::RBracket)) {
                 Some(Box::new(self.expression()?))
             } else {
